@@ -102,3 +102,228 @@ Proof.
   intros L Ha. replace a with ((a - 4) + 4)%nat by lia. rewrite !skipn_add.
   f_equal. rewrite <- L. apply skipn_app_exact.
 Qed.
+
+(* ---------------------------------------------------------------------------------------------- *)
+(* totality *)
+Section Total.
+Variable b58 : text -> option bytes.
+Variable bech32 : text -> option (text * Z * bytes * bool).
+Variable int10 int16 : text -> option Z.
+Variable compile : text -> option bytes.
+Variable hmac512 : bytes -> bytes.
+Variable stretch : bytes -> Z.
+Variable mulG : Z -> Z * Z.
+Variable modsqrt : Z -> Z.
+
+Lemma mk_point_vt x y : value_total (mk_point x y).
+Proof. unfold mk_point. destruct (on_curve (x, y)); cbn; auto. Qed.
+
+Lemma points_for_x_vt x : value_total (points_for_x modsqrt x).
+Proof.
+  unfold points_for_x. destruct (_ =? 0); cbn; auto.
+  apply value_total_bind. apply mk_point_vt. intros p0 _.
+  apply value_total_bind. apply mk_point_vt. intros p1 _.
+  destruct (_ =? 0); cbn; auto.
+Qed.
+
+Lemma key_material_private_vt se : value_total (key_material_private mulG se).
+Proof. unfold key_material_private. destruct (valid_exponent se); cbn; auto. destruct (on_curve _); cbn; auto. Qed.
+
+Lemma key_material_public_vt pt : value_total (key_material_public pt).
+Proof. unfold key_material_public. destruct (on_curve _); cbn; auto. Qed.
+
+Lemma keys_private_vt se c : value_total (keys_private mulG se c).
+Proof. unfold keys_private. apply value_total_bind. apply key_material_private_vt. intros; cbn; auto. Qed.
+
+Lemma sec_to_public_pair_vt s : value_total (sec_to_public_pair modsqrt s).
+Proof.
+  unfold sec_to_public_pair.
+  repeat match goal with
+  | |- value_total (if ?c then _ else _) => destruct c
+  | |- value_total (bind _ _) => apply value_total_bind; [apply points_for_x_vt | intros]
+  | |- value_total (Ret _) => exact I
+  | |- value_total (Raise _) => reflexivity
+  end.
+Qed.
+
+Lemma hd_deserialize_vt kind d : value_total (hd_deserialize mulG modsqrt kind d).
+Proof.
+  unfold hd_deserialize.
+  destruct (negb _); [reflexivity|].
+  destruct (bytes_eqb _ _).
+  - apply value_total_bind. apply key_material_private_vt. intros; exact I.
+  - apply value_total_bind. apply sec_to_public_pair_vt. intros.
+    apply value_total_bind. apply key_material_public_vt. intros; exact I.
+Qed.
+
+(* --- per entry point --- *)
+Lemma b58_script_of_payload_total pre mk d : returns (b58_script_of_payload pre mk d).
+Proof. unfold b58_script_of_payload. destruct pre; auto with c18. repeat (destruct (negb _); auto with c18). Qed.
+
+Lemma p2pkh_total net s : returns (p2pkh b58 net s).
+Proof. apply via_b58_returns. intros. apply b58_script_of_payload_total. Qed.
+Lemma p2sh_total net s : returns (p2sh b58 net s).
+Proof. apply via_b58_returns. intros. apply b58_script_of_payload_total. Qed.
+
+Lemma segwit_of_decoded_total net ver len mk v : returns (segwit_of_decoded net ver len mk v).
+Proof.
+  unfold segwit_of_decoded. destruct v as [[[hrp version] data] is_m]. destruct (n_hrp net); auto with c18.
+  repeat match goal with |- returns (if ?c then _ else _) => destruct c; auto with c18 end.
+Qed.
+
+Lemma p2pkh_segwit_total net s : returns (p2pkh_segwit bech32 net s).
+Proof. apply via_bech32_returns. intros. apply segwit_of_decoded_total. Qed.
+Lemma p2sh_segwit_total net s : returns (p2sh_segwit bech32 net s).
+Proof. apply via_bech32_returns. intros. apply segwit_of_decoded_total. Qed.
+Lemma p2tr_total net s : returns (p2tr bech32 net s).
+Proof. apply via_bech32_returns. intros. apply segwit_of_decoded_total. Qed.
+
+Lemma script_total net s : returns (script compile net s).
+Proof. unfold script. destruct (compile s); auto with c18. Qed.
+
+Lemma address_total net s : returns (address b58 bech32 net s).
+Proof.
+  apply disabled_or_returns. unfold address_body.
+  repeat (apply orelse_returns); auto using p2pkh_total, p2sh_total, p2pkh_segwit_total, p2sh_segwit_total, p2tr_total.
+Qed.
+
+Lemma payable_total net s : returns (payable b58 bech32 compile net s).
+Proof. apply orelse_returns. apply address_total. apply script_total. Qed.
+
+Lemma wif_of_payload_total net d : returns (wif_of_payload mulG net d).
+Proof.
+  unfold wif_of_payload. destruct (n_wif net); auto with c18.
+  destruct (negb _); auto with c18.
+  destruct (Nat.ltb _ _).
+  - destruct (_ || _); auto with c18. apply catch_value_returns, keys_private_vt.
+  - destruct (negb _); auto with c18. apply catch_value_returns, keys_private_vt.
+Qed.
+
+Lemma wif_total net s : returns (wif b58 mulG net s).
+Proof. apply via_b58_returns. intros. apply wif_of_payload_total. Qed.
+
+Lemma secret_exponent_total net s : returns (secret_exponent int10 int16 mulG net s).
+Proof.
+  unfold secret_exponent. destruct (as_number _ _ _); auto with c18.
+  destruct (_ =? 0); auto with c18. apply catch_value_returns, keys_private_vt.
+Qed.
+
+Lemma private_key_total net s : returns (private_key b58 int10 int16 mulG net s).
+Proof.
+  apply disabled_or_returns. apply first_of_returns. intros f [<-|[<-|[]]].
+  apply wif_total. apply secret_exponent_total.
+Qed.
+
+Lemma sec_total net s : returns (sec modsqrt net s).
+Proof. unfold sec. destruct (h2b s); auto with c18. apply catch_all_returns. Qed.
+
+Lemma hd_of_payload_total pre kind d : returns (hd_of_payload mulG modsqrt pre kind d).
+Proof.
+  unfold hd_of_payload. destruct pre; auto with c18. destruct (negb _); auto with c18.
+  apply catch_value_returns, hd_deserialize_vt.
+Qed.
+
+Lemma hd_prv_total net kind s : returns (hd_prv b58 mulG modsqrt net kind s).
+Proof. apply via_b58_returns. intros. apply hd_of_payload_total. Qed.
+Lemma hd_pub_total net kind s : returns (hd_pub b58 mulG modsqrt net kind s).
+Proof. apply via_b58_returns. intros. apply hd_of_payload_total. Qed.
+Lemma hd_any_total net kind s : returns (hd_any b58 mulG modsqrt net kind s).
+Proof. apply orelse_returns. apply hd_prv_total. apply hd_pub_total. Qed.
+
+Lemma electrum_prv_total net s : returns (electrum_prv mulG net s).
+Proof.
+  unfold electrum_prv. destruct (electrum_to_blob s); auto with c18. destruct (Nat.eqb _ _); auto with c18.
+  apply catch_value_returns. apply value_total_bind. apply key_material_private_vt. intros; exact I.
+Qed.
+
+Lemma electrum_pub_total net s : returns (electrum_pub net s).
+Proof.
+  unfold electrum_pub. destruct (electrum_to_blob s); auto with c18. destruct (Nat.eqb _ _); auto with c18.
+  apply catch_value_returns. apply value_total_bind. apply key_material_public_vt. intros; exact I.
+Qed.
+
+Lemma unsupported_total net s : returns (unsupported net s).
+Proof. unfold unsupported. auto with c18. Qed.
+
+(* --- public_pair: needs the generator itself to be on the curve (Key(1) is built first) --- *)
+Lemma points_for_x_on_curve x pp :
+  points_for_x modsqrt x = Ret pp -> on_curve (fst pp) = true /\ on_curve (snd pp) = true.
+Proof.
+  unfold points_for_x, mk_point. destruct (_ =? 0); [discriminate|].
+  destruct (on_curve (x, modsqrt _)) eqn:E1; cbn [bind]; [|discriminate].
+  destruct (on_curve (x, curve_p - modsqrt _)) eqn:E2; cbn [bind]; [|discriminate].
+  destruct (_ =? 0); intros H; inversion H; subst; cbn; auto.
+Qed.
+
+Definition opt_on_curve (p : option (Z * Z)) : Prop :=
+  match p with Some q => on_curve q = true | None => True end.
+
+Lemma public_pair_step_spec c s pt :
+  opt_on_curve pt ->
+  public_pair_step int10 int16 modsqrt c s pt = Ret None \/
+  exists q, public_pair_step int10 int16 modsqrt c s pt = Ret (Some q) /\ opt_on_curve q.
+Proof.
+  intros Hpt. unfold public_pair_step.
+  destruct (split_at c s) as [[s0 s1]|]; [|right; eauto].
+  destruct (as_number int10 int16 s0) as [v0|]; [|right; eauto].
+  destruct (v0 =? 0); [right; eauto|].
+  assert (Hstep1 :
+    forall (st : outcome (option (option (Z * Z)))),
+      (st = Ret None \/ exists q, st = Ret (Some q) /\ opt_on_curve q) ->
+      match st with
+      | Ret (Some point1) =>
+        match as_number int10 int16 s1 with
+        | None => Ret (Some point1)
+        | Some v1 =>
+          if v1 =? 0 then Ret (Some point1)
+          else if on_curve (v0, v1) then bind (mk_point v0 v1) (fun pt => Ret (Some (Some pt)))
+          else Ret (Some point1)
+        end
+      | other => other
+      end = Ret None \/
+      exists q,
+      match st with
+      | Ret (Some point1) =>
+        match as_number int10 int16 s1 with
+        | None => Ret (Some point1)
+        | Some v1 =>
+          if v1 =? 0 then Ret (Some point1)
+          else if on_curve (v0, v1) then bind (mk_point v0 v1) (fun pt => Ret (Some (Some pt)))
+          else Ret (Some point1)
+        end
+      | other => other
+      end = Ret (Some q) /\ opt_on_curve q).
+  { intros st [->|[q [-> Hq]]]. left; reflexivity.
+    destruct (as_number int10 int16 s1) as [v1|]; [|right; eauto].
+    destruct (v1 =? 0); [right; eauto|].
+    destruct (on_curve (v0, v1)) eqn:E; [|right; eauto].
+    unfold mk_point. rewrite E. cbn. right. eexists; split; [reflexivity|]. exact E. }
+  apply Hstep1.
+  destruct (_ || _).
+  - pose proof (points_for_x_vt v0) as Hvt. destruct (points_for_x modsqrt v0) as [pp|e|] eqn:E; cbn in Hvt.
+    + right. eexists; split; [reflexivity|]. apply points_for_x_on_curve in E as [E1 E2].
+      cbn. unfold pick. destruct (text_eqb _ _); assumption.
+    + rewrite Hvt. left; reflexivity.
+    + contradiction.
+  - right; eauto.
+Qed.
+
+Lemma public_pair_total net s :
+  on_curve (mulG 1) = true -> returns (public_pair int10 int16 mulG modsqrt net s).
+Proof.
+  intros HG. unfold public_pair, keys_private, key_material_private.
+  replace (valid_exponent 1) with true by (vm_compute; reflexivity). rewrite HG. cbn [bind].
+  destruct (public_pair_step_spec 44%N s None I) as [->|[q [-> Hq]]]; auto with c18.
+  destruct (public_pair_step_spec 47%N s q Hq) as [->|[q' [-> Hq']]]; auto with c18.
+  destruct q' as [pt|]; auto with c18.
+  cbn in Hq'. unfold keys_public_pair, key_material_public. rewrite Hq'. cbn. auto with c18.
+Qed.
+
+Lemma public_key_total net s :
+  on_curve (mulG 1) = true -> returns (public_key int10 int16 mulG modsqrt net s).
+Proof.
+  intros HG. apply disabled_or_returns. apply first_of_returns. intros f [<-|[<-|[]]].
+  apply public_pair_total, HG. apply sec_total.
+Qed.
+
+End Total.
